@@ -404,6 +404,16 @@ def _pinobj(reg, r):
     raise HarnessError("cannot build pin argument %r" % (r,))
 
 
+def _arg_form(items, form):
+    """the collection argument of a bulk call: a list, a one-shot iterator over it, or the list with its first
+    member named twice"""
+    if form == "iter":
+        return (x for x in items)
+    if form == "dup" and items:
+        return list(items) + [items[0]]
+    return items
+
+
 def _do(reg, c):
     """perform the call; returns the list of (kind, object) it returned"""
     op = c["op"]
@@ -452,7 +462,7 @@ def _do(reg, c):
     if op == "remove_from":
         pk, ck = REL[c["rel"]]
         p = reg.get(pk, c["p"])
-        getattr(p, REMOVE_FROM[c["rel"]])([reg.get(ck, x) for x in c["xs"]])
+        getattr(p, REMOVE_FROM[c["rel"]])(_arg_form([reg.get(ck, x) for x in c["xs"]], c.get("form", "list")))
         return []
     if op == "reorder":
         pk, ck = REL[c["rel"]]
@@ -471,7 +481,7 @@ def _do(reg, c):
         reg.get("W", c["w"]).disconnect_pin(_pinobj(reg, c["pin"]))
         return []
     if op == "disconnect_from":
-        reg.get("W", c["w"]).disconnect_pins_from([_pinobj(reg, r) for r in c["pins"]])
+        reg.get("W", c["w"]).disconnect_pins_from(_arg_form([_pinobj(reg, r) for r in c["pins"]], c.get("form", "list")))
         return []
     if op == "reorder_pins":
         reg.get("W", c["w"]).pins = [_pinobj(reg, r) for r in c["seq"]]
@@ -608,6 +618,8 @@ def _q_hq(reg, c):
         obj = [reg.get(root["kind"], x) for x in root["ids"]]
     elif root["t"] == "M":
         obj = [reg.get("N", root["id"]), reg.get(root["kind"], root["x"])]
+    elif root["t"] == "HS":
+        obj = [_href_from_path(reg, h) for h in root["hs"]]
     else:
         held = getattr(reg, "held", None) or {}
         obj = held.get(json.dumps(root["h"]))      # the very reference handed out earlier, if the walk holds it
@@ -661,6 +673,8 @@ def _render(pat, is_re):
             out.append(re.escape(tok["c"]) if is_re else tok["c"])
         elif tok["t"] == "1":
             out.append("." if is_re else "?")
+        elif tok["t"] == "D":
+            out.append("\\D" if is_re else "?")        # one non-digit character
         else:
             out.append(".*" if is_re else "*")
     return "".join(out)
@@ -1073,6 +1087,17 @@ def mutate_text(fmt, text, kind, idx):
             toks[pos] = other
         else:
             del toks[pos:pos + 4]          # ( libraryRef L )
+    elif kind == "sibling":
+        # the identifier of an instance replaced by the identifier of ANOTHER instance of the same text
+        if fmt != "edif":
+            return None, n
+        pos_ids = []
+        for i, t in enumerate(toks[:-3]):
+            if t == "(" and toks[i + 1].lower() == "instance":
+                pos_ids.append(i + 2 if toks[i + 2] != "(" else i + 4)      # plain identifier or (rename id "name")
+        if len(pos_ids) < 2 or idx >= len(pos_ids):
+            return None, n
+        toks[pos_ids[idx]] = toks[pos_ids[(idx + 1) % len(pos_ids)]]
     elif kind == "dangle":
         refs = [i + 1 for i, t in enumerate(toks[:-1]) if t.lower() in _REFKW[fmt] and toks[i + 1] not in ("(", ")")]
         if not refs:
